@@ -666,7 +666,11 @@ class PartialTask(Task[P, R]):
         )
 
     def is_valid(self) -> bool:
-        return self.task.is_valid()
+        # The partially applied arguments are part of the value: a bound File or Handle that is
+        # no longer valid invalidates the PartialTask, just like it would as a plain argument.
+        return self.task.is_valid() and get_type_registry().is_valid_nested(
+            (self.args, self.kwargs)
+        )
 
     def options(self, **task_options_update: Any) -> "PartialTask[..., R]":
         """
